@@ -344,6 +344,21 @@ class LenInterp:
         if isinstance(e, ast.BinOp):
             return Iv(1, INF, "num")
         if isinstance(e, ast.IfExp):
+            # x if len(x) < c else y: on the first branch x is that short
+            t = e.test
+            if isinstance(t, ast.Compare) and len(t.ops) == 1 and isinstance(t.left, ast.Call) and isinstance(t.left.func, ast.Name) and t.left.func.id == "len" \
+                    and len(t.left.args) == 1 and isinstance(t.left.args[0], ast.Name):
+                c = try_const(self.ctx, fi, t.comparators[0])
+                nm = t.left.args[0].id
+                if isinstance(c, int) and isinstance(t.ops[0], (ast.Lt, ast.LtE, ast.Gt, ast.GtE)):
+                    cur = env.get(nm) if isinstance(env.get(nm), Iv) else self.ev(fi, t.left.args[0], env)
+                    if isinstance(t.ops[0], (ast.Lt, ast.LtE)):
+                        cap = c - 1 if isinstance(t.ops[0], ast.Lt) else c
+                        e_true = dict(env, **{nm: Iv(cur.lo, min(cur.hi, cap), cur.kind, cur.unsup if cur.hi <= cap else None)})
+                        return iv_join(self.ev(fi, e.body, e_true), self.ev(fi, e.orelse, env))
+                    cap = c if isinstance(t.ops[0], ast.Gt) else c - 1
+                    e_false = dict(env, **{nm: Iv(cur.lo, min(cur.hi, cap), cur.kind, cur.unsup if cur.hi <= cap else None)})
+                    return iv_join(self.ev(fi, e.body, env), self.ev(fi, e.orelse, e_false))
             return iv_join(self.ev(fi, e.body, env), self.ev(fi, e.orelse, env))
         if isinstance(e, ast.Subscript) and isinstance(e.slice, ast.Slice):
             b = self.ev(fi, e.value, env)
@@ -363,6 +378,8 @@ class LenInterp:
                         if not (isinstance(a_, int) and isinstance(b_, int) and 0 <= a_ <= b_):
                             raise ValueError
                         diffs.add(b_ - a_)
+                except (NameError, UnboundLocalError):
+                    raise
                 except Exception:
                     diffs = set()
                 if len(diffs) == 1:
@@ -554,7 +571,16 @@ def _wrap_helper(ctx) -> FuncInfo:
     for fi in closure(ctx, "write"):
         has_len_test = any(isinstance(n, ast.Compare) and isinstance(n.left, ast.Call) and isinstance(n.left.func, ast.Name) and n.left.func.id == "len" for n in own_walk(fi.node))
         has_append = any(isinstance(n, ast.Call) and isinstance(n.func, ast.Attribute) and n.func.attr == "append" for n in own_walk(fi.node))
-        if has_len_test and has_append:
+        # it cuts its text: a slice of one of its parameters (a function that merely leaves out an over-long header line does not)
+        ps_ = set(params_of(fi.node))
+        cuts = any(isinstance(n, ast.Subscript) and isinstance(n.slice, ast.Slice) and isinstance(n.value, ast.Name) and (n.value.id in ps_ or n.value.id in assigned_names(fi.node))
+                   for n in own_walk(fi.node))
+        if has_len_test and has_append and cuts:
+            return fi
+    for fi in closure(ctx, "write"):
+        has_len_test = any(isinstance(n, ast.Compare) and isinstance(n.left, ast.Call) and isinstance(n.left.func, ast.Name) and n.left.func.id == "len" for n in own_walk(fi.node))
+        has_append = any(isinstance(n, ast.Call) and isinstance(n.func, ast.Attribute) and n.func.attr == "append" for n in own_walk(fi.node))
+        if has_len_test and has_append and fi.module.name == entry(ctx, "write").module.name:
             return fi
     raise AnalysisError("R-WRAP: the writer has no function that tests a line length and appends (wrap helper vanished)")
 
@@ -1351,6 +1377,8 @@ def _check_optional_tokens(ctx, fi: FuncInfo, res: RuleResult):
             try:
                 if r.accepts(tok) and not r.accepts("C") and not r.accepts("0.000000"):
                     acc.append(r)      # an attribute recognizer (not a generic token filter)
+            except (NameError, UnboundLocalError):
+                raise
             except Exception:
                 pass
         attr_recs = [r for r in recs if not _safe(r.accepts, "C") and not _safe(r.accepts, "0.000000") and any(_safe(r.accepts, t_) for t_ in ("CHG=1", "MASS=1", "RAD=1"))]
@@ -1373,6 +1401,8 @@ def _check_optional_tokens(ctx, fi: FuncInfo, res: RuleResult):
 def _safe(fn, *a):
     try:
         return fn(*a)
+    except (NameError, UnboundLocalError):
+        raise
     except Exception:
         return False
 
@@ -1480,6 +1510,30 @@ def _check_line_sequence(ctx, wh: FuncInfo, res: RuleResult):
                                 row, f = rets_[0].value, m_
                     if isinstance(row, ast.Subscript):
                         r_counts = try_const(ctx, f, row.slice)
+    if r_counts is None:
+        # the counts row fetched by a helper that takes the line number:  row = _line(lines, 5) ... row[:3] != ["M", "V30", "COUNTS"]
+        for q in ctx.cg.closure([v3.fq]):
+            f = ctx.cg.funcs[q]
+            for x in own_walk(f.node):
+                if not (isinstance(x, ast.Compare) and len(x.comparators) == 1):
+                    continue
+                cv = try_const(ctx, f, x.comparators[0])
+                if not (cv == "COUNTS" or (isinstance(cv, (list, tuple)) and "COUNTS" in cv)) or not isinstance(x.left, ast.Subscript):
+                    continue
+                row = x.left.value
+                if isinstance(row, ast.Name):
+                    row = single_def(f.node, row.id) or row
+                if isinstance(row, ast.Subscript) and isinstance(try_const(ctx, f, row.slice), int):
+                    r_counts = try_const(ctx, f, row.slice)
+                elif isinstance(row, ast.Call):
+                    cs = ctx.cg.resolve_call(f, row, ctx.cg.local_types(f), set(params_of(f.node)))
+                    ints = [(i_, try_const(ctx, f, a_)) for i_, a_ in enumerate(row.args) if isinstance(try_const(ctx, f, a_), int)]
+                    if cs.kind == "tucan" and len(ints) == 1:
+                        hp = params_of(cs.target.node)
+                        i_, k_ = ints[0]
+                        # the helper indexes one of its parameters with that one
+                        if i_ < len(hp) and any(isinstance(y, ast.Subscript) and isinstance(y.value, ast.Name) and y.value.id in hp and norm(y.slice) == hp[i_] for y in own_walk(cs.target.node)):
+                            r_counts = k_
     if r_atoms is None:
         for q in ctx.cg.closure([v3.fq]):
             f = ctx.cg.funcs[q]
